@@ -297,7 +297,7 @@ func c01Case(c *core.Ctx, p *dyn.PairOps, sh c01shape, r *core.Rand, caseID stri
 			for i := 0; i < n; i++ {
 				// expected: the same number in the buffer's type
 				w.Expect(i, w.B.Sample(i)) // provisional; numeric equality checked below
-				if !dyn.NumEq(w.B.Sample(i), src.Want[i]) {
+				if !c01Eq(w.B.Sample(i), src.Want[i]) {
 					c.Violate("Write"+pairName+"|value", caseID, fmt.Sprintf("position %d holds %v after writing %v", i, w.B.Sample(i), src.Want[i]), d)
 					break
 				}
@@ -346,7 +346,7 @@ func c01Case(c *core.Ctx, p *dyn.PairOps, sh c01shape, r *core.Rand, caseID stri
 				continue
 			}
 			for i := 0; i < n; i++ {
-				if !dyn.NumEq(dst.S.Get(i), a.Shadow[w.Off+i]) {
+				if !c01Eq(dst.S.Get(i), a.Shadow[w.Off+i]) {
 					c.Violate("Read"+pairName+"|value", caseID, fmt.Sprintf("output[%d]=%v, buffer position %d holds %v", i, dst.S.Get(i), i, a.Shadow[w.Off+i]), d)
 					break
 				}
@@ -355,7 +355,7 @@ func c01Case(c *core.Ctx, p *dyn.PairOps, sh c01shape, r *core.Rand, caseID stri
 			outProblems := dst.Verify("output beyond the part read")
 			if hiddenAll != nil {
 				for i := il; i < hiddenAll.Len(); i++ {
-					if !hiddenAll.Get(i).Same(mon.Canary(B.TypeInfo, i, 99)) && !dyn.NumEq(hiddenAll.Get(i), mon.Canary(B.TypeInfo, i, 99)) {
+					if !hiddenAll.Get(i).Same(mon.Canary(B.TypeInfo, i, 99)) && !c01Eq(hiddenAll.Get(i), mon.Canary(B.TypeInfo, i, 99)) {
 						outProblems = append(outProblems, mon.Problem{Kind: "caller-slice", Msg: fmt.Sprintf("element %d behind the end of the output slice (its spare capacity) was written", i)})
 						break
 					}
@@ -451,7 +451,7 @@ func c01Case(c *core.Ctx, p *dyn.PairOps, sh c01shape, r *core.Rand, caseID stri
 				pos := sh.ch*i + ci
 				cell := w.B.RawAt(pos)
 				if i < lens[ci] {
-					if !dyn.NumEq(cell, want[ci][i]) {
+					if !c01Eq(cell, want[ci][i]) {
 						c.Violate("WriteStriped"+pairName+"|value", caseID, fmt.Sprintf("channel %d sample %d (position %d) holds %v after writing %v", ci, i, pos, cell, want[ci][i]), d)
 						bad = true
 						break
@@ -483,7 +483,7 @@ func c01Case(c *core.Ctx, p *dyn.PairOps, sh c01shape, r *core.Rand, caseID stri
 		// to the caller and stay as they were
 		for ci := range lens {
 			for i := max(lens[ci], 0); lens[ci] >= 0 && i < ssFull.At(ci).Len(); i++ {
-				if got, want := ssFull.At(ci).Get(i), A.FromInt(int64(7+i%5)); !got.Same(want) && !dyn.NumEq(got, want) {
+				if got, want := ssFull.At(ci).Get(i), A.FromInt(int64(7+i%5)); !got.Same(want) && !c01Eq(got, want) {
 					sp = append(sp, mon.Problem{Kind: "caller-slice", Msg: fmt.Sprintf("the element %d behind the end of input row %d (length %d, in its spare capacity) changed from %v to %v", i, ci, lens[ci], want, got)})
 					break
 				}
@@ -491,6 +491,61 @@ func c01Case(c *core.Ctx, p *dyn.PairOps, sh c01shape, r *core.Rand, caseID stri
 		}
 		c01Common(c, "WriteStriped"+pairName, caseID, d, a, w, before, got, wr, sp)
 		c.Sample("writestriped", d)
+	}
+	// ---------------- WriteStriped with rows that are prefixes of ONE array
+	if sh.ch >= 2 && length >= 2 {
+		lens := make([]int, sh.ch)
+		for ci := range lens {
+			lens[ci] = []int{length / 2, length, max(length-3, 0), length + 1}[ci%4]
+		}
+		a := mon.NewArena(B, sh.ch, sh.k, 11)
+		w := a.Window(sh.s, sh.e, 0, 0)
+		ss, arr := A.MakeSSShared(lens, 4)
+		for i := 0; i < arr.Len(); i++ {
+			arr.Set(i, commonVal(r, A.TypeInfo, B.TypeInfo))
+		}
+		var orig []dyn.Val
+		for i := 0; i < arr.Len(); i++ {
+			orig = append(orig, arr.Get(i))
+		}
+		wr := min(length+1, length)
+		before := mon.ShapeOf(w.B)
+		d := map[string]any{"fn": "WriteStriped" + pairName, "shape": shapeD, "channel_lens": lens, "buffer_frames": length, "rows": "prefixes of one backing array"}
+		c.Eval(1)
+		c.Obs("striped_writes_with_rows_that_share_one_backing_array", 1)
+		var got int
+		if pn, msg := core.Guard(func() { got = p.WriteStriped(ss, w.B) }); pn {
+			c.Violate("WriteStriped"+pairName+"|panic", caseID, "WriteStriped (rows sharing one backing array) panicked: "+msg, d)
+		} else {
+			bad := false
+			for ci := 0; ci < sh.ch && !bad; ci++ {
+				for i := 0; i < wr; i++ {
+					pos := sh.ch*i + ci
+					cell := w.B.RawAt(pos)
+					if i < lens[ci] && !c01Eq(cell, orig[i]) {
+						c.Violate("WriteStriped"+pairName+"|value", caseID, fmt.Sprintf("rows are prefixes of one array: channel %d sample %d (position %d) holds %v after writing %v", ci, i, pos, cell, orig[i]), d)
+						bad = true
+						break
+					}
+					if i >= lens[ci] && !cell.IsZero() {
+						c.Violate("WriteStriped"+pairName+"|zero-fill", caseID, fmt.Sprintf("rows are prefixes of one array: channel %d sample %d (position %d) holds %v, must be zero-filled (channel has %d samples)", ci, i, pos, cell, lens[ci]), d)
+						bad = true
+						break
+					}
+					w.Expect(pos, cell)
+				}
+			}
+			var sp []mon.Problem
+			for i := range orig {
+				if !arr.Get(i).Same(orig[i]) {
+					sp = append(sp, mon.Problem{Kind: "caller-slice", Msg: fmt.Sprintf("element %d of the array the input rows share changed", i)})
+					break
+				}
+			}
+			if !bad {
+				c01Common(c, "WriteStriped"+pairName, caseID, d, a, w, before, got, wr, sp)
+			}
+		}
 	}
 	// ---------------- ReadStriped: Buffer[A] -> [][]B
 	for vi, lens := range lensVariants() {
@@ -536,7 +591,7 @@ func c01Case(c *core.Ctx, p *dyn.PairOps, sh c01shape, r *core.Rand, caseID stri
 			for i := 0; i < lens[ci]; i++ {
 				g := ss.At(ci).Get(i)
 				if i < nread {
-					if !dyn.NumEq(g, a.Shadow[w.Off+sh.ch*i+ci]) {
+					if !c01Eq(g, a.Shadow[w.Off+sh.ch*i+ci]) {
 						c.Violate("ReadStriped"+pairName+"|value", caseID, fmt.Sprintf("output[%d][%d]=%v, buffer sample (channel %d, index %d) is %v", ci, i, g, ci, i, a.Shadow[w.Off+sh.ch*i+ci]), d)
 						sp = nil
 						goto doneRS
@@ -576,7 +631,7 @@ func c01Case(c *core.Ctx, p *dyn.PairOps, sh c01shape, r *core.Rand, caseID stri
 			out := A.MakeSS(lens)
 			back.ReadStriped(w.B, out)
 			for i := 0; i < n; i++ {
-				if g := out.At(i % sh.ch).Get(i / sh.ch); !dyn.NumEq(g, src.Want[i]) {
+				if g := out.At(i % sh.ch).Get(i / sh.ch); !c01Eq(g, src.Want[i]) {
 					c.Violate("roundtrip"+pairName+"|write-readstriped", caseID, fmt.Sprintf("wrote %v at interleaved position %d, striped reader returned %v for channel %d index %d", src.Want[i], i, g, i%sh.ch, i/sh.ch), d)
 					break
 				}
@@ -592,7 +647,7 @@ func c01Case(c *core.Ctx, p *dyn.PairOps, sh c01shape, r *core.Rand, caseID stri
 			flat := A.MakeSl(n)
 			back.Read(w2.B, flat)
 			for i := 0; i < n; i++ {
-				if g := flat.Get(i); !dyn.NumEq(g, src.Want[i]) {
+				if g := flat.Get(i); !c01Eq(g, src.Want[i]) {
 					c.Violate("roundtrip"+pairName+"|writestriped-read", caseID, fmt.Sprintf("wrote %v for channel %d index %d, interleaved reader returned %v at position %d", src.Want[i], i%sh.ch, i/sh.ch, g, i), d)
 					break
 				}
@@ -655,7 +710,7 @@ func c01Recycled(c *core.Ctx, p *dyn.PairOps, r *core.Rand) {
 			}
 			for ci := range lens {
 				for i := 0; i < frames; i++ {
-					if !dyn.NumEq(b.Sample(ch*i+ci), ss.At(ci).Get(i)) {
+					if !c01Eq(b.Sample(ch*i+ci), ss.At(ci).Get(i)) {
 						c.Violate("WriteStriped"+pairName+"|value|"+how, caseID, fmt.Sprintf("channel %d sample %d holds %v after writing %v (%s)", ci, i, b.Sample(ch*i+ci), ss.At(ci).Get(i), how), d)
 						return
 					}
@@ -675,7 +730,7 @@ func c01Recycled(c *core.Ctx, p *dyn.PairOps, r *core.Rand) {
 					c.Violate("ReadStriped"+pairName+"|count|"+how, caseID, fmt.Sprintf("returned %d on a buffer of %d frames (%s)", got, frames, how), d)
 				}
 				for i := 0; i < ch*frames; i++ {
-					if g := out.At(i % ch).Get(i / ch); !dyn.NumEq(g, src.Get(i)) {
+					if g := out.At(i % ch).Get(i / ch); !c01Eq(g, src.Get(i)) {
 						c.Violate("ReadStriped"+pairName+"|value|"+how, caseID, fmt.Sprintf("position %d: read %v, wrote %v (%s)", i, g, src.Get(i), how), d)
 						return
 					}
@@ -749,4 +804,17 @@ func rowHeadersChanged(ss dyn.SS, lens []int) string {
 		}
 	}
 	return ""
+}
+
+// c01Eq compares a transferred sample with the one it came from: numerically,
+// and between two floating-point values also by the sign of zero (a transfer
+// between floating-point types stores -0 as -0).
+func c01Eq(a, b dyn.Val) bool {
+	if !dyn.NumEq(a, b) {
+		return false
+	}
+	if a.K == dyn.KFloat && b.K == dyn.KFloat && a.F == 0 && b.F == 0 {
+		return math.Signbit(a.F) == math.Signbit(b.F)
+	}
+	return true
 }
